@@ -423,6 +423,12 @@ def do_op(o, live, tmpdir, counter):
         if type(r) is not type(a):
             checks.append("netCDF round trip: loaded a %s from a saved %s" % (type(r).__name__, type(a).__name__))
         d = [k for k in snap_diff(snap(a), snap(r)) if k != "@attrs"]
+        # integer variables may come back in another width (netCDF3 has no int64): same kind + same values
+        d = [k for k in d if not (k in a.dataset.variables and k in r.dataset.variables
+                                  and raw(a, k).dtype.kind in "iu" and raw(r, k).dtype.kind in "iu"
+                                  and raw(a, k).shape == raw(r, k).shape
+                                  and a.dataset[k].dims == r.dataset[k].dims
+                                  and np.array_equal(raw(a, k).astype("int64"), raw(r, k).astype("int64")))]
         if d:
             checks.append("netCDF round trip differs from the saved spectrum in %s" % d)
         return info, r, checks, extra
@@ -503,6 +509,9 @@ def run_program(prog, tmpdir, counter):
                     step["same_dataset_as"] = [k for k in range(len(live)) if r.dataset is live[k].dataset]
                     step["new_id"] = len(live)
                     step["new_vars"] = [str(v) for v in r.dataset.variables]
+                    if step["op"] != "copy":
+                        # informational: results that are views of (share writeable memory with) live objects
+                        step["views"] = sorted({x[0] for x in sharing(r, live) if x[3]})
                     live.append(r)
                     snaps.append(snap(r))
             else:
